@@ -8,10 +8,12 @@ import (
 	"strings"
 	"sync"
 	"testing"
+	"time"
 
 	cfg "github.com/lianxiangcloud/linkchain/config"
 	"github.com/lianxiangcloud/linkchain/libs/common"
 	lktypes "github.com/lianxiangcloud/linkchain/libs/cryptonote/types"
+	"github.com/lianxiangcloud/linkchain/mempool"
 	"github.com/lianxiangcloud/linkchain/types"
 	"pgregory.net/rapid"
 
@@ -285,6 +287,19 @@ func runHistory(t *rapid.T, concurrent bool) {
 	default:
 		vstat.Label("pool_default")
 	}
+	// a third of the histories run with a short life time of pending transactions (mempool.GoodTxDropTime, 60 s by
+	// default, is the node's knob): at a commit the pool drops what has been pending for longer.  Then a pending
+	// transaction may disappear by design, so only soundness is demanded (like with binding caps).  The op "age" lets
+	// that time pass; the clock steers the scenario only - the oracle (what is offered is gap-free from the committed
+	// nonce, ...) holds on a correct pool whatever the timing.
+	dropMode := rapid.IntRange(0, 2).Draw(t, "dropmode") == 0
+	if dropMode {
+		old := mempool.GoodTxDropTime
+		mempool.GoodTxDropTime = 30 * time.Millisecond
+		defer func() { mempool.GoodTxDropTime = old }()
+		e.capsBind = true
+		vstat.Label("pool_short_pending_lifetime")
+	}
 	e.s = chainsim.New(t, chainsim.Options{NumAccts: rapid.IntRange(2, 4).Draw(t, "naccts"), NumWallets: 2, AllRich: true, RealCache: true, MempoolCfg: mc, Wasm: true, MultiSign: true, Tokens: true})
 	e.s.UnderpayRate = 4
 	defer e.s.Close()
@@ -321,7 +336,7 @@ func runHistory(t *rapid.T, concurrent bool) {
 
 	nops := rapid.IntRange(3, 30).Draw(t, "nops")
 	for i := 0; i < nops; i++ {
-		op := rapid.SampledFrom([]string{"next", "next", "next", "future", "future", "dup", "stale", "underfunded", "lowfee-a2u", "a2u", "uspend", "uspend", "reap", "commit-own", "commit-own", "commit-other", "upgrade", "upgrade", "rotate", "token-deposit", "token-spend", "token-spend"}).Draw(t, "op")
+		op := rapid.SampledFrom([]string{"next", "next", "next", "future", "future", "dup", "stale", "underfunded", "lowfee-a2u", "a2u", "uspend", "uspend", "reap", "commit-own", "commit-own", "commit-other", "age", "upgrade", "upgrade", "rotate", "token-deposit", "token-spend", "token-spend"}).Draw(t, "op")
 		w := e.s.W
 		submit := func(tx types.Tx, desc string) error {
 			err := w.Submit(tx)
@@ -337,6 +352,19 @@ func runHistory(t *rapid.T, concurrent bool) {
 			return err
 		}
 		switch op {
+		case "age":
+			// what is pending now grows older than the pool's life time; then the next transaction of some sender arrives,
+			// younger than its predecessors
+			if !dropMode {
+				continue
+			}
+			time.Sleep(40 * time.Millisecond)
+			from := e.s.Accts[rapid.IntRange(0, len(e.s.Accts)-1).Draw(t, "from")]
+			n := w.App.GetNonce(from.Addr)
+			if n > e.s.Committed().GetNonce(from.Addr) {
+				vstat.Label("young_successor_of_aged_pending_tx")
+			}
+			submit(world.Transfer(from, n, rapid.SampledFrom(e.s.Recipients()).Draw(t, "to"), big.NewInt(int64(1+i))), fmt.Sprintf("after ageing: transfer from %s nonce %d", from.Addr.Hex()[:10], n))
 		case "next":
 			// amounts stay far below the balances (every account holds 1e6 ether): the mempool judges funds against its
 			// speculative state, which debits senders but does not credit recipients before the commit, so with
